@@ -9,5 +9,7 @@ if [ ! -x $V/bin/python ] || ! $V/bin/python -c "import z3, ascmhl, lxml, click"
   SP=$($V/bin/python -c "import sysconfig; print(sysconfig.get_paths()['purelib'])")
   printf "import site; site.addsitedir('/venv/lib/python3.12/site-packages')\n" > $SP/_overlay.pth
   PIP_NO_INDEX=1 $V/bin/pip install -q --no-index --find-links /opt/veriftools/wheels z3-solver >/dev/null
+  # second engine for the thorough tier (optional: checks still run without it)
+  PIP_NO_INDEX=1 $V/bin/pip install -q --no-index --find-links /opt/veriftools/wheels crosshair-tool >/dev/null 2>&1 || true
 fi
 $V/bin/python -c "import z3, ascmhl, os; assert os.path.dirname(ascmhl.__file__) == '/repo/ascmhl', ascmhl.__file__; print('verif venv ok: z3', z3.get_version_string())"
